@@ -8,6 +8,7 @@ depfixer; header names with blanks and Make-special characters, restricted at
 run time to the names whose gcc depfile a hand-written Makefile can consume."""
 import json
 import os
+import re
 import shutil
 import stat
 import subprocess
@@ -213,6 +214,26 @@ def main(argv):
             pick = pick[:3]
         jobs.append((h, 'make' if i % 4 else 'ninja',
                      {'h1': pick[0], 'h2': pick[1], 'h3': pick[2]}))
+    # directed: every in-scope name is included, built, dropped and deleted
+    # without an intervening build (the depfile still names it), then
+    # re-created and included again
+    B = {'op': 'build', 'f': '', 'g': ''}
+
+    def E(op, f, g=''):
+        return {'op': op, 'f': f, 'g': g}
+    directed = [E('addinc', 's1', 'h1'), E('addhinc', 'h1', 'h2'), B,
+                E('drophinc', 'h1', 'h2'), E('delete', 'h2'), B,
+                E('dropinc', 's1', 'h1'), E('delete', 'h1'), B,
+                E('recreate', 'h1'), E('addinc', 's2', 'h1'), B,
+                E('modify', 'h1'), B, E('clean', ''), B]
+    for i, nm in enumerate(names_ok):
+        others = [x for x in names_ok if x != nm]
+        nms = {'h1': nm, 'h2': others[i % len(others)],
+               'h3': others[(i + 1) % len(others)]}
+        for b in ('make', 'ninja'):
+            jobs.append((directed, b, nms))
+            jobs.append((directed, b, {'h1': nms['h2'], 'h2': nm,
+                                       'h3': nms['h3']}))
     res = pmap(replay, jobs, jobs=12)
     traces = [{'id': i + 1, 'events': [
         {k: v for k, v in e.items() if k != 'note'} for e in ev]}
@@ -229,7 +250,18 @@ def main(argv):
         prev = [e['op'] for e in res[tid - 1][:info[1] - 1]][-3:]
         special = ''.join(sorted({c for nm in names.values() for c in nm
                                   if not c.isalnum() and c not in './'}))
-        ck.report('C07:%s:%s:after=%s:names=%s' % (
+        # the file the build tool says it cannot make, if it names one of
+        # the headers: the finding is identified by that header's characters
+        m = re.search(r"No rule to make target '[^']*/src/([^']*)'|"
+                      r"'[^']*/src/([^']*)', needed by",
+                      ev.get('note', ''))
+        missing = (m.group(1) or m.group(2)) if m else None
+        if missing in names.values():
+            special = 'missing=' + ''.join(sorted(
+                {c for c in missing if not c.isalnum() and c not in './'}))
+        else:
+            special = 'names=' + special
+        ck.report('C07:%s:%s:after=%s:%s' % (
             info[0], backend, '+'.join(prev), special),
             '%s (%s): %s expected/observed %s; header names %s; %s' % (
                 info[0], backend, json.dumps(ev)[:300], json.dumps(info[2]),
